@@ -108,6 +108,7 @@ def run(plan, prop=None):
   states = [alg.as_np(state)]
   # references
   w_ref = np.zeros(n)
+  w_mag = 0.0                 # largest partial sum / step seen so far
   diag = np.full(n, delta)
   C = np.zeros((n, n))         # exact covariance of the scaled gradients
   Cg = np.zeros((n, n))        # exact covariance of the raw gradients
@@ -142,12 +143,20 @@ def run(plan, prop=None):
       continue
     tt = t + 1
     if plan['alg'] == 'OGD':
-      w_ref = w_ref - lr * g / np.sqrt(tt + delta)
-      _close(ctx, 'ogd', mk, t, w, w_ref, 1e-12, np)
+      inc = lr * g / np.sqrt(tt + delta)
+      w_ref = w_ref - inc
+      # (the iterate is a sum of steps that may cancel: rounding is relative
+      # to the largest partial sum, not to the final value)
+      w_mag = max(float(w_mag), float(np.max(np.abs(w_ref))),
+                  float(np.max(np.abs(inc))) if inc.size else 0.0)
+      _close(ctx, 'ogd', mk, t, w, w_ref, 1e-12, np, floor=w_mag)
     elif plan['alg'] == 'ADA':
       diag = diag + g * g
-      w_ref = w_ref - lr * g / np.sqrt(np.where(diag == 0, 1.0, diag))
-      _close(ctx, 'ada', mk, t, w, w_ref, 1e-12, np)
+      inc = lr * g / np.sqrt(np.where(diag == 0, 1.0, diag))
+      w_ref = w_ref - inc
+      w_mag = max(float(w_mag), float(np.max(np.abs(w_ref))),
+                  float(np.max(np.abs(inc))) if inc.size else 0.0)
+      _close(ctx, 'ada', mk, t, w, w_ref, 1e-12, np, floor=w_mag)
       _close(ctx, 'ada', mk, t, cur['diag_h'].reshape(-1), diag, 1e-12, np)
     else:
       fac = {'S_ADA': 1.0, 'ADA_FD': 1.0,
@@ -228,12 +237,12 @@ def run(plan, prop=None):
   return ctx.result()
 
 
-def _close(ctx, oracle, mk, t, got, want, rel, np, pred='closed_form'):
+def _close(ctx, oracle, mk, t, got, want, rel, np, pred='closed_form', floor=0.0):
   got, want = np.asarray(got, np.float64), np.asarray(want, np.float64)
   if not np.all(np.isfinite(want)):
     ctx.ev(oracle, 'vacuous')
     return
-  sc = float(np.max(np.abs(want))) if want.size else 0.0
+  sc = max(float(np.max(np.abs(want))) if want.size else 0.0, float(floor))
   d = float(np.max(np.abs(got - want))) if np.all(np.isfinite(got)) else float('inf')
   ok = d <= rel * max(sc, 1e-300) + 1e-300
   ctx.ev(oracle, 'ok' if ok else 'violation', d / (rel * max(sc, 1e-300) + 1e-300))
